@@ -504,9 +504,43 @@ def ref_ev(e):
     raise ValueError(op)
 
 
+ATOL, RTOL = 1e-8, 1e-5      # defaults of torch.allclose
+
+
+def scal_rel(a, b, nan_ok):
+    """'close' / 'far' / 'between' for one pair of scalars: close when within atol + rtol*|.| whichever operand the
+    implementation scales by, far when beyond it for both, between otherwise (the property is silent there)."""
+    if a is None or b is None:
+        return "close" if (a is None and b is None and nan_ok) else "far"
+    d = abs(a - b)
+    if d <= ATOL + RTOL * min(abs(a), abs(b)):
+        return "close"
+    if d > ATOL + RTOL * max(abs(a), abs(b)):
+        return "far"
+    return "between"
+
+
+def mats_rel(m1, m2, nan_ok=True):
+    """closeness of two cell matrices of equal shape; None when the shapes differ"""
+    if [[len(c) for c in r] for r in m1] != [[len(c) for c in r] for r in m2]:
+        return None
+    out = "close"
+    for r1, r2 in zip(m1, m2):
+        for c1, c2 in zip(r1, r2):
+            for x, z in zip(c1, c2):
+                rel = scal_rel(x, z, nan_ok)
+                if rel == "far":
+                    return "far"
+                if rel == "between":
+                    out = "between"
+    return out
+
+
 def ref_equal(a, b):
-    """The property's equality: same columns, same target, same values with missing == missing on features.
-    Returns (bool, reason) or (None, reason) where the property is silent (a target with missing values)."""
+    """The property's equality: same columns, same target, same values up to the comparison tolerance, missing == missing
+    on features.  Returns (bool, reason), or (None, reason) where the property is silent (a target with missing
+    values; a difference between the two operand-dependent tolerances)."""
+    silent = None
     if a["len"] != b["len"]:
         return False, "different numbers of rows"
     if (a["y"] is None) != (b["y"] is None):
@@ -516,8 +550,11 @@ def ref_equal(a, b):
             if [v for v in a["y"]] != [v for v in b["y"]]:
                 return False, "targets differ"
             return None, "target with missing values"
-        if a["y"] != b["y"]:
+        rels = [scal_rel(x, z, False) for x, z in zip(a["y"], b["y"])]
+        if "far" in rels:
             return False, "targets differ"
+        if "between" in rels:
+            silent = "target difference at the tolerance"
     if dict((s, n) for s, n in a["names"]) != dict((s, n) for s, n in b["names"]):
         return False, "column names differ"
     fa, fb = dict(a["feats"]), dict(b["feats"])
@@ -531,8 +568,13 @@ def ref_equal(a, b):
         if sorted(cx) != sorted(cz_):
             return False, f"{s}: dict keys differ"
         for k in cx:
-            if cx[k][1:3] != cz_[k][1:3] or cx[k][3] != cz_[k][3]:
+            rel = mats_rel(cx[k][3], cz_[k][3]) if cx[k][1:3] == cz_[k][1:3] else None
+            if rel is None or rel == "far":
                 return False, f"{s}{'/' + k if k else ''}: values differ"
+            if rel == "between":
+                silent = "value difference at the tolerance"
+    if silent:
+        return None, silent
     return True, "equal"
 
 
